@@ -573,6 +573,51 @@ static size_t get_value_size(carquet_physical_type_t type, int32_t type_length) 
 }
 
 /* ============================================================================
+ * Helper: Locate a page inside the mapped file / buffer
+ * ============================================================================
+ *
+ * Offsets and sizes come from the file and cannot be trusted: the header
+ * window and the page payload must lie inside the mapping.
+ */
+
+#define CARQUET_PAGE_HEADER_WINDOW 256
+
+static carquet_status_t mmap_page_header_window(
+    const carquet_reader_t* file_reader,
+    int64_t page_offset,
+    size_t* window,
+    carquet_error_t* error) {
+
+    if (page_offset < 0 || (uint64_t)page_offset >= (uint64_t)file_reader->file_size) {
+        CARQUET_SET_ERROR(error, CARQUET_ERROR_INVALID_PAGE,
+            "Page offset %lld is outside the file", (long long)page_offset);
+        return CARQUET_ERROR_INVALID_PAGE;
+    }
+
+    size_t available = file_reader->file_size - (size_t)page_offset;
+    *window = available < CARQUET_PAGE_HEADER_WINDOW ? available : CARQUET_PAGE_HEADER_WINDOW;
+    return CARQUET_OK;
+}
+
+static carquet_status_t mmap_page_payload_check(
+    const carquet_reader_t* file_reader,
+    int64_t page_offset,
+    size_t header_size,
+    int32_t compressed_page_size,
+    carquet_error_t* error) {
+
+    size_t available = file_reader->file_size - (size_t)page_offset;
+    if (compressed_page_size < 0 || header_size > available ||
+        (size_t)compressed_page_size > available - header_size) {
+        CARQUET_SET_ERROR(error, CARQUET_ERROR_INVALID_PAGE,
+            "Page at offset %lld (%d bytes) extends past the end of the file",
+            (long long)page_offset, (int)compressed_page_size);
+        return CARQUET_ERROR_INVALID_PAGE;
+    }
+    return CARQUET_OK;
+}
+
+/* ============================================================================
  * Helper: Load dictionary page (mmap path)
  * ============================================================================
  */
@@ -587,12 +632,18 @@ static carquet_status_t load_dictionary_page_mmap(
     const parquet_column_metadata_t* col_meta = reader->col_meta;
 
     /* Parse page header directly from mmap */
+    size_t header_window;
+    carquet_status_t status = mmap_page_header_window(
+        file_reader, dict_offset, &header_window, error);
+    if (status != CARQUET_OK) {
+        return status;
+    }
     const uint8_t* header_ptr = mmap_data + dict_offset;
 
     parquet_page_header_t page_header;
     size_t header_size;
-    carquet_status_t status = parquet_parse_page_header(
-        header_ptr, 256, &page_header, &header_size, error);
+    status = parquet_parse_page_header(
+        header_ptr, header_window, &page_header, &header_size, error);
     if (status != CARQUET_OK) {
         return status;
     }
@@ -600,6 +651,12 @@ static carquet_status_t load_dictionary_page_mmap(
     if (page_header.type != CARQUET_PAGE_DICTIONARY) {
         CARQUET_SET_ERROR(error, CARQUET_ERROR_INVALID_PAGE, "Expected dictionary page");
         return CARQUET_ERROR_INVALID_PAGE;
+    }
+
+    status = mmap_page_payload_check(file_reader, dict_offset, header_size,
+                                     page_header.compressed_page_size, error);
+    if (status != CARQUET_OK) {
+        return status;
     }
 
     /* Get pointer to compressed data */
@@ -812,12 +869,18 @@ static carquet_status_t load_next_page_mmap(
 
     /* Parse page header directly from mmap */
     int64_t page_offset = reader->data_start_offset + reader->current_page;
+    size_t header_window;
+    carquet_status_t status = mmap_page_header_window(
+        file_reader, page_offset, &header_window, error);
+    if (status != CARQUET_OK) {
+        return status;
+    }
     const uint8_t* header_ptr = mmap_data + page_offset;
 
     parquet_page_header_t page_header;
     size_t header_size;
-    carquet_status_t status = parquet_parse_page_header(
-        header_ptr, 256, &page_header, &header_size, error);
+    status = parquet_parse_page_header(
+        header_ptr, header_window, &page_header, &header_size, error);
     if (status != CARQUET_OK) {
         return status;
     }
@@ -837,6 +900,12 @@ static carquet_status_t load_next_page_mmap(
     if (page_header.type != CARQUET_PAGE_DATA && page_header.type != CARQUET_PAGE_DATA_V2) {
         CARQUET_SET_ERROR(error, CARQUET_ERROR_INVALID_PAGE, "Expected data page");
         return CARQUET_ERROR_INVALID_PAGE;
+    }
+
+    status = mmap_page_payload_check(file_reader, page_offset, header_size,
+                                     page_header.compressed_page_size, error);
+    if (status != CARQUET_OK) {
+        return status;
     }
 
     /* Get pointer to page data in mmap */
